@@ -167,6 +167,21 @@ impl Monitor for C08 {
                 ctx.check(&Case::new(ev, "exact", &s, Val::C(g.0, g.1)), &|c, st| self.judge(c, st));
             }
         }
+        // general trees: every operator, superscripts, implicit products and functions, two or three
+        // levels deep; the reference gives a verdict where one tolerance-checked operation sits on
+        // exactly known operands, possibly under further exact operations
+        let mut cfg = GenCfg::full(ev, &leaf);
+        cfg.sup_digits = vec!["2", "3", "0", "1", "5"];
+        let n4 = ctx.tier.pick(60_000u64, 800_000);
+        for i in 0..n4 {
+            if ctx.mine() {
+                let mut rng = ctx.rng("tree", i);
+                let depth = 2 + rng.below(2);
+                let (_, s) = gen_expr(&cfg, &mut rng, depth);
+                let g = grid(&mut rng);
+                ctx.check(&Case::new(ev, "tree", &s, Val::C(g.0, g.1)), &|c, st| self.judge(c, st));
+            }
+        }
         // real operands inside the real domain: agreement with eval_f64
         let n3 = ctx.tier.pick(40_000u64, 600_000);
         for i in 0..n3 {
@@ -235,7 +250,7 @@ impl Monitor for C08 {
         to_verdict("C08", case.ev, &shape_of(&p.ast), rv, false)
     }
     fn rule(&self) -> &'static str {
-        "literal forms (i, Ni, N.i, .Ni, juxtapositions) against the reference lexer; depth-1: every operator and every one of the 24 function spellings over generic operands (both parts non-zero, from a fixed grid and log-uniform in [1e-2,1e2], written as exact `(a+bi)` expressions or bound to @) judged against the harness's own pair arithmetic and principal-branch definitions (component-exact for + - * and unary minus, 1e-12 for / and abs, 1e-9 elsewhere, only away from axes, cuts and branch points); random trees of depth<=5 over + - * compared component-exactly; real operands inside the real domain compared with eval_f64 through the public API (1e-9 relative, imaginary part below 1e-9 of the modulus); non-trivial = the reference gives a verdict; distinct = distinct (expression, placeholder)"
+        "literal forms (i, Ni, N.i, .Ni, juxtapositions) against the reference lexer; depth-1: every operator and every one of the 24 function spellings over generic operands (both parts non-zero, from a fixed grid and log-uniform in [1e-2,1e2], written as exact `(a+bi)` expressions or bound to @) judged against the harness's own pair arithmetic and principal-branch definitions (component-exact for + - * and unary minus, 1e-12 for / and abs, 1e-9 elsewhere, only away from axes, cuts and branch points); random trees of depth<=5 over + - * compared component-exactly; random trees of depth 2-3 over every operator, superscript, implicit product and function, judged where one tolerance-checked operation sits on exactly known operands, alone or under further + - * / (tolerance derived from the operands' tolerances, no verdict under cancellation); real operands inside the real domain compared with eval_f64 through the public API (1e-9 relative, imaginary part below 1e-9 of the modulus); non-trivial = the reference gives a verdict; distinct = distinct (expression, placeholder)"
     }
     fn assumptions(&self) -> Vec<&'static str> {
         vec![
@@ -244,7 +259,7 @@ impl Monitor for C08 {
         ]
     }
     fn floors(&self, _t: Tier) -> Vec<(String, u64)> {
-        vec![("set:tolerance_operations".into(), 20), ("judged.depth1".into(), 5_000), ("judged.exact".into(), 5_000), ("real_agreements".into(), 3_000)]
+        vec![("set:tolerance_operations".into(), 20), ("judged.depth1".into(), 5_000), ("judged.exact".into(), 5_000), ("judged.tree".into(), 2_000), ("real_agreements".into(), 3_000)]
     }
 }
 
